@@ -464,6 +464,7 @@ func runC10(c *ctx) {
 	}
 	facts.Repo = repoDir()
 	rxDiff(c, []string{"Channel.", "Util.ansiPattern"}, c.n(150, 2000))
+	c10Internal(c)
 	if cst := strings.Fields(c.ask([]string{"c10 consts"})[0]); len(cst) != 3 || cst[0] != "2" || cst[1] != "2" || cst[2] != "2" {
 		c10constsOff = true
 		res.Note("extracted *SeenMax constants are %v, the property fixes 2: the model (which mirrors the code) is not expected to meet the specification", cst)
